@@ -260,6 +260,10 @@ def diff_dicts(a, b, path="", config=None):
         # If types are the same and nonatomic, recurse. A differ configured
         # explicitly for the path (e.g. to ignore it) also applies to atomic values
         subpath = "/".join((path, key))
+        if _is_ignored(config, subpath):
+            # (whatever the types of the two values: null -> 2 is a change
+            # of the ignored field like 1 -> 2)
+            continue
         if type(avalue) is type(bvalue) and (
                 subpath in config.differs or
                 not config.is_atomic(avalue, path=subpath)):
